@@ -441,7 +441,7 @@ INITS_THOROUGH = [(), ("a",), ("a", "b", "a"), ("b", "a", "a", "b"), ("a", "a"),
 def plan(tier, seed):
     jobs = []
     inits = INITS_QUICK if tier == "quick" else INITS_THOROUGH
-    depth = 4 if tier == "quick" else 6
+    depth = 4 if tier == "quick" else 5
     for init in inits:
         variant = ""
         if init and init[-1] == "U":
